@@ -20,7 +20,7 @@ def blank_surface(tag, tracks, spt):
     return bytes(img)
 
 
-def marker_surface(tag, tracks, spt, total=None, with_file=True, empty_first=False):
+def marker_surface(tag, tracks, spt, total=None, with_file=True, empty_first=False, boot=0):
     """A surface with a valid (Acorn) catalogue and every other sector self-describing."""
     nsec = tracks * spt
     img = bytearray()
@@ -39,7 +39,7 @@ def marker_surface(tag, tracks, spt, total=None, with_file=True, empty_first=Fal
         # a zero-length file catalogued just before F with the same start sector (legal: it occupies nothing)
         ents.insert(0, {"name": b"EMPTY", "dir": ord("$"), "locked": False, "load": 0, "exec": 0, "length": 0,
                         "start": 2, "body": {"kind": "rand", "seed": 0}})
-    s0, s1 = disc.encode_catalog_pair(("M-" + tag).encode()[:12], 0x11, 0, total, ents)
+    s0, s1 = disc.encode_catalog_pair(("M-" + tag).encode()[:12], 0x11, boot, total, ents)
     img[0:256] = s0
     img[256:512] = s1
     return bytes(img)
@@ -49,7 +49,8 @@ def marker_surface(tag, tracks, spt, total=None, with_file=True, empty_first=Fal
 def case_st(draw):
     kind = draw(st.sampled_from(["one", "one", "inter", "inter", "mmb", "mmb", "one-trunc", "inter-trunc",
                                  "inter-blank1", "mmb-blank", "one-hdfs2"]))
-    c = {"kind": kind, "pick": draw(st.integers(0, 10 ** 6))}
+    # the boot option shares byte 0x106 with the high bits of the sector count and the HDFS flags
+    c = {"kind": kind, "pick": draw(st.integers(0, 10 ** 6)), "boot": draw(st.integers(0, 3))}
     if kind == "inter-blank1":
         # side 1 has no catalogue at all: the geometry then follows from side 0's catalogue alone
         dd = draw(st.booleans())
@@ -190,10 +191,11 @@ class C04(CheckBase):
         ef = bool(case.get("empty_first"))
         if ef:
             v.classes.append("zero-length-entry-before-file-at-same-sector")
-        sides = [marker_surface("side0", tracks, spt, total=tot, empty_first=ef)]
+        bo = case.get("boot", 0)
+        sides = [marker_surface("side0", tracks, spt, total=tot, empty_first=ef, boot=bo)]
         blank1 = case["kind"] == "inter-blank1"
         if inter:
-            sides.append(blank_surface("side1", tracks, spt) if blank1 else marker_surface("side1", tracks, spt, total=tot, empty_first=ef))
+            sides.append(blank_surface("side1", tracks, spt) if blank1 else marker_surface("side1", tracks, spt, total=tot, empty_first=ef, boot=bo))
             data = containers.interleaved(sides[0], sides[1], spt)
         else:
             data = sides[0]
@@ -247,7 +249,7 @@ class C04(CheckBase):
         tracks, spt = case["tracks"], case["spt"]
         sides = []
         for tag in ("side0", "side1"):
-            img = bytearray(marker_surface(tag, tracks, spt, total=tracks * spt, with_file=False))
+            img = bytearray(marker_surface(tag, tracks, spt, total=tracks * spt, with_file=False, boot=case.get("boot", 0)))
             img[256 + 6] |= 0x0C
             sides.append(bytes(img))
         data = containers.noninterleaved(sides)
